@@ -675,6 +675,8 @@ def canon_key(x):
 
 
 def gen_cases(tier, rng):
+    from checks import corpus
+    first = [c for c in corpus.load("C11") if c.get("op") in IMPL]        # witnesses of past mode differences: single cases, run first
     cases = []
     for name, fn, nq, nt in FAMILIES:
         n = {"quick": nq, "thorough": nt, "search": max(nt // 2, nq)}.get(tier, nq)
@@ -682,8 +684,10 @@ def gen_cases(tier, rng):
     only = os.environ.get("C11X_ONLY")
     if only:
         cases = [c for c in cases if c["op"] in only.split(",")]
+    if only:
+        first = [c for c in first if c["op"] in only.split(",")]
     if os.environ.get("C11X_FLAT"):
-        return cases
+        return first + cases
     by_op = {}
     for c in cases:
         by_op.setdefault(c["op"], []).append(c)
@@ -693,7 +697,7 @@ def gen_cases(tier, rng):
         cs = sorted(by_op[op], key=sig_key)
         for i in range(0, len(cs), size):
             out.append({"op": "x_batch", "family": op, "cases": cs[i:i + size]})
-    return out
+    return first + out
 
 
 # ------------------------------------------------------------------------------------------------------------------
@@ -1620,6 +1624,19 @@ def one_diff_ok(case, a, b, mode):
 def match_one(case, a, b, mode):
     """open finding of known_findings.json that this single differing sub-case is an instance of (narrow: by input shape AND
     by the shape of the two outputs), else None"""
+    op = case["op"]
+    if op == "x_spans" and case.get("entry") in ("two_fields", "three"):
+        # NC11a: Session.get_spans(fields=...) hands out the list built by _get_spans_for_2_fields_by_spans: Python ints when the
+        # kernel is compiled, numpy.int32 when it is interpreted. Same length, same values, only the element class differs.
+        ra, rb = (a or {}).get("r", a), (b or {}).get("r", b)
+        if isinstance(ra, dict) and isinstance(rb, dict) and ra.get("seq") == rb.get("seq") == "list" and \
+                len(ra["items"]) == len(rb["items"]) and all(set(x) == {"py", "v"} and x["py"] == "int" for x in ra["items"]) and \
+                all(y.get("np") == "int32" for y in rb["items"]) and [x["v"] for x in ra["items"]] == [y["v"] for y in rb["items"]]:
+            return "NC11a"
+    if op == "x_apply" and case.get("fn") == "last" and case.get("sdtype") == "uint64":
+        # NC11b: apply_spans_last subtracts 1 from the uint64 span array: float64 under numba, which cannot subscript
+        if isinstance(a, dict) and a.get("err") == "other:TypingError" and isinstance(b, dict) and "err" not in b:
+            return "NC11b"
     return None
 
 
